@@ -20,7 +20,7 @@ func mustRedis(s *sut) *redis.Client {
 // newMemoryScheduler: for the in-memory store every store method is one critical section of the process, so the provider call is the only
 // scheduling point.
 func newMemoryScheduler(s *sut) *scheduler {
-	sc := &scheduler{s: s, procs: map[string]*procState{}, events: make(chan string, 64), dead: map[string]bool{}, blockAfter: 120 * time.Millisecond}
+	sc := &scheduler{s: s, procs: map[string]*procState{}, events: make(chan string, 64), dead: map[string]bool{}, clientPids: map[string][]string{}, blockAfter: 120 * time.Millisecond}
 	s.idp.mu.Lock()
 	s.idp.gate = func(kind string, form url.Values) *idpFault {
 		// the parked process is identified by being the one that is currently running
